@@ -29,6 +29,8 @@ def gen_scenario(rng, profile=None):
             c = dict(rng.choice(pool))
             if rng.random() < 0.25:
                 c["pause"] = rng.choice([1, 5, 20])
+            if rng.random() < 0.3:
+                c["wait"] = True
             sess.append(c)
         sessions.append(sess)
     block = rng.random() < profile.get("block_p", 0.75)
@@ -202,6 +204,15 @@ def judge(model, scen, out):
             sessions += ms
     except MapError as e:
         diff = {"kind": "unmapped_event", "detail": str(e), "event": e.event}
+    # keys straight from the events (independent of the label mapping, which may have stopped at a difference)
+    for run in out["runs"]:
+        cur = {}
+        for ev in run["events"]:
+            th = ev.get("th", "")
+            if ev["op"] == "get" and ev.get("kind") == "task" and th.startswith("worker:"):
+                cur[th] = ev["i"]
+            elif ev["op"] == "key" and th in cur:
+                keys.setdefault(cur[th], ev["key"])
     # two different calls sharing a key (C08) / identical calls with different keys (C09)
     bykey = {}
     for i, k in keys.items():
@@ -230,6 +241,21 @@ def judge(model, scen, out):
         execs_by_class.setdefault(canon([int(p[0][1:]), int(p[1]), None if p[2] == "None" else int(p[2])]), 0)
         execs_by_class[canon([int(p[0][1:]), int(p[1]), None if p[2] == "None" else int(p[2])])] += 1
     info["exec_by_class"] = execs_by_class
+    # re-execution after completion (C09), from the linearised trace: a call handed to a worker process after a future
+    # of the same key had already received its result
+    for run in out["runs"]:
+        completed = set()
+        cur = {}
+        for ev in run["events"]:
+            th = ev.get("th", "")
+            if ev["op"] == "get" and ev.get("kind") == "task" and th.startswith("worker:"):
+                cur[th] = ev["i"]
+            elif ev["op"] == "set_result" and th.startswith("worker:") and ev["i"] in keys:
+                completed.add(keys[ev["i"]])
+            elif ev["op"] == "send" and ev.get("kind") == "task" and th.startswith("worker:"):
+                i = cur.get(th)
+                if i is not None and keys.get(i) in completed:
+                    oracles.append({"oracle": "cache_reexecution_after_completion", "i": i, "key": keys.get(i)})
     if diff is None:
         keyids = {k: n for n, k in enumerate(sorted(set(keys.values())))}
         valids = {v: n for n, v in enumerate(sorted(set(expected.values())))}
